@@ -91,6 +91,7 @@ let assoc_of (s : string) : (string * string) list =
     | None -> None) (split ';' s)
 
 let rec firstn_l k l = if k = 0 then [] else match l with [] -> [] | x :: r -> x :: firstn_l (k - 1) r
+let rec skipn_l k l = if k = 0 then l else match l with [] -> [] | _ :: r -> skipn_l (k - 1) r
 
 let handle_h f =
   let kek_kind = f.(2) and kek = unhex f.(3) and ad = unhex f.(4) and tape = unhex f.(5) and primary = n_of_dec f.(6) in
@@ -132,10 +133,29 @@ let handle_h f =
       if kek_kind <> "gcm" then "-" else begin
         let iv = firstn_l 12 tape in
         let enc ad pt = iv @ ocall "gcm_seal" [] [kek; iv; ad; pt] in
-        match write_encrypted dser enc es ad with Some b -> hexs b | None -> failwith "write_encrypted"
+        let dec ad ct =
+          if List.length ct < 12 then None
+          else ocall_opt "gcm_open" [] [kek; firstn_l 12 ct; ad; skipn_l 12 ct] in
+        match write_encrypted dser enc es ad with
+        | Some b ->
+          (* the model's own round trip through the encrypted form (C12_registry_encrypted_roundtrip) *)
+          (match read_encrypted (dpar reg) dec b ad with
+           | Some es' when shape es' = shape es && write_cleartext dser es' = Some b1 -> ()
+           | _ -> failwith "model round trip of the encrypted keyset");
+          hexs b
+        | None -> failwith "write_encrypted"
       end in
     let pb = match public_handle (dpub reg pub_url) es with
-      | Some pes -> (match write_cleartext dser pes with Some b -> hexs b | None -> "?")
+      | Some pes ->
+        (match write_cleartext dser pes with
+         | Some b ->
+           (* the public handle is again a registry handle: it survives write/read
+              (C12_registry_public_roundtrip) *)
+           (match read_cleartext (dpar reg) b with
+            | Some pes' when shape pes' = shape pes && write_cleartext dser pes' = Some b -> ()
+            | _ -> failwith "model round trip of the public keyset");
+           hexs b
+         | None -> "?")
       | None -> "-" in
     "ok|" ^ shape es ^ "|" ^ hexs b1 ^ "|" ^ e1 ^ "|" ^ pb ^ ""
 
